@@ -274,6 +274,49 @@ def tlc_parallel(runs, timeout=1800):
         return [f.result() for f in futs]
 
 
+
+def apalache(module, *, init, inv, length, next=None, timeout=900):
+    """Run apalache-mc check on spec file `module` (relative to SPEC). Returns (verdict, wall, tail) with
+    verdict "ok" (no error up to `length`), "violation" or "error"."""
+    mpath = module if os.path.isabs(module) else os.path.join(SPEC, module)
+    if not mpath.endswith(".tla"):
+        mpath += ".tla"
+    od = os.path.join(OUT, "apalache", f"{os.getpid()}-{time.time_ns()}")
+    os.makedirs(od, exist_ok=True)
+    cmd = ["timeout", str(timeout), "apalache-mc", "check", f"--init={init}", f"--inv={inv}", f"--length={length}", f"--out-dir={od}"]
+    if next:
+        cmd.append(f"--next={next}")
+    cmd.append(mpath)
+    t0 = time.time()
+    p = subprocess.run(cmd, stdout=subprocess.PIPE, stderr=subprocess.STDOUT, text=True)
+    out = p.stdout
+    verdict = "ok" if "EXITCODE: OK" in out else "violation" if "EXITCODE: ERROR (12)" in out else "error"
+    shutil.rmtree(od, ignore_errors=True)
+    return verdict, time.time() - t0, out[-1500:]
+
+
+def inductive(ctx, module, name, control_next, consts, registered=None):
+    """Apalache: `Init => IndInv`, `IndInv /\\ Next => IndInv'`, and a control transition relation that must break
+    the invariant (vacuity guard).  Appends to ctx.mc; a non-inductive invariant is a model failure."""
+    import concurrent.futures as cf
+    jobs = [("base", dict(init="Init", inv="IndInv", length=0), "ok"),
+            ("step", dict(init="IndInit", inv="IndInv", length=1), "ok"),
+            ("step on the control (must be rejected)", dict(init="IndInit", inv="IndInv", length=1, next=control_next), "violation")]
+    if registered:
+        jobs.append((registered[0], registered[1], "ok"))
+    with cf.ThreadPoolExecutor(max_workers=len(jobs)) as ex:
+        futs = [ex.submit(apalache, module, **kw) for _, kw, _ in jobs]
+        results = [f.result() for f in futs]
+    for (what, _, want), (verdict, wall, tail) in zip(jobs, results):
+        if verdict == "error":
+            log(tail)
+            raise ToolError(f"apalache failed on {name} {what}")
+        if want == "violation" and verdict != want:
+            raise ToolError(f"vacuous inductive check of {name}: the control was not rejected")
+        if verdict != want:
+            ctx.fail({"why": "model", "cfg": f"{name} {what}", "inv": "IndInv"}, f"{name} {what}: invariant not inductive", {"cfg": name, "trace": tail})
+        ctx.mc.append({"model": f"{name} {what}", "constants": consts, "states": 0, "transitions": 0, "depth": 1, "wall_s": round(wall, 1), "verdict": verdict})
+
 # --------------------------------------------------------------------------
 # ndjson helpers
 # --------------------------------------------------------------------------
@@ -401,6 +444,11 @@ def finish(ctx, level, coverage, assumptions=None):
         os.makedirs(evdir, exist_ok=True)
         with open(os.path.join(evdir, f"{ctx.prop}.json"), "w") as fh:
             json.dump(ev, fh, indent=1)
+        if ctx.tier == "thorough" and "VERIF_EVIDENCE_DIR" not in os.environ:
+            # keep the last thorough run next to the per-run evidence file (which the next quick run rewrites)
+            os.makedirs(os.path.join(VERIF, "evidence-thorough"), exist_ok=True)
+            with open(os.path.join(VERIF, "evidence-thorough", f"{ctx.prop}.json"), "w") as fh:
+                json.dump(ev, fh, indent=1)
     log(f"[{ctx.prop}] tier={ctx.tier} wall={wall:.1f}s violations={len(reported)} known={sum(n for _, n in known_hit.values())}")
     return 1 if reported else 0
 
